@@ -11,11 +11,23 @@
    operator form); Proofs/C04A.v -- the COMPLETE derivative vector is the vector of adjoints;
    Proofs/C04RI.v -- the analytic theorems over `Rops_i`, whose power function is x^n for natural
    exponents at ANY base (negative bases of record ^ number inside the domain `dom_i`).
+   Wave 2 added: Proofs/C04RZ.v -- the analytic theorems over `Rops_z`, whose power function is
+   powerRZ for EVERY integer exponent (x^n, 1 / x^n) at any base; the domain `dom_z` admits
+   record ^ number and record ^ constant-record at a negative base for any integer exponent and at
+   a zero base for natural exponents (only the pole 0^(-n) stays outside) -- the two exclusions of
+   the session-3 audit are gone.  The correspondence hands the items of every Sum to `impl Sum for
+   Record` through 16 iterator shapes (unknown lower bound, from_fn, chain, not fused, lying size
+   hints; harness/src/c04/prog.rs `sum_shaped`): the model's `rec_sum` is a fold over the LIST of
+   items, so a summation that depends on anything but the items yielded disagrees with it.
+   Proofs/C04S.v -- `impl Sum for Record` of this model IS the fold `each_sum` of the container /
+   machine model (Model/Container.v, C06 / C15) on one list, and appends between 0 and n entries
+   with the result at the last one (the connecting theorem for a future TSum machine operation).
    By-value / by-reference operand forms are one model function per operator kind; they are
    separated by the correspondence only (harness/src/c04/prog.rs). *)
 From Coq Require Import List Arith ZArith Reals Bool.
 From EasyML Require Import Base.Sx Model.Num Model.Tape Model.AD Spec.FormalD Spec.FormalAdj
-  Proofs.TapeP Proofs.C04P Proofs.C04R Proofs.C04X Proofs.C04A Proofs.C04RI.
+  Proofs.TapeP Proofs.C04P Proofs.C04R Proofs.C04X Proofs.C04A Proofs.C04RI Proofs.C04RZ Proofs.C04S.
+From EasyML Require Model.Container.
 Import ListNotations.
 
 (* the number carried by the record of every instruction is the same computation on plain
@@ -176,6 +188,63 @@ Theorem C04_reverse_mode_is_true_derivative_ipow : forall prog i x0 out d,
                    (at_ Rops_i d (getr Rops_i (fst (run_prog Rops_i prog)) i)).
 Proof. exact reverse_mode_is_true_derivative_i. Qed.
 
+(* ---- Sum in the two record models (Proofs/C04S.v).  On one list h, the fold `each_sum` of the
+   container / tape-machine model (Model/Container.v: records carry the name of their list; used by
+   C06 / C15) started from Record::zero() is exactly this model's Sum node: same tape, same number,
+   same index, same constant-ness -- so C04's theorems about Sum transfer to it.  `emb h` reads a C04
+   record as a record of list h. ---- *)
+Theorem C04_sum_is_the_container_fold : forall R (ops : numops R) h (t : tape R) (l : list (rec R)),
+  Container.each_sum ops t (@Container.rec_constant R (nzero ops)) (map (emb h) l) =
+  Ok (snd (rec_sum ops t l), emb h (fst (rec_sum ops t l))).
+Proof. exact @each_sum_is_rec_sum. Qed.
+
+(* what a Sum appends: at most one entry per summed record (possibly none, possibly several -- NOT
+   the one-entry shape of the other scalar operations); a result with a history sits at the last
+   appended entry; a constant result appended nothing *)
+Theorem C04_sum_appends : forall R (ops : numops R) (t : tape R) (l : list (rec R)),
+  exists suf, snd (rec_sum ops t l) = t ++ suf /\ (length suf <= length l)%nat /\
+    (history (fst (rec_sum ops t l)) = true -> (index (fst (rec_sum ops t l)) + 1 = length (t ++ suf))%nat) /\
+    (history (fst (rec_sum ops t l)) = false -> suf = []).
+Proof. exact @rec_sum_fresh. Qed.
+
+(* ---- ALL integer powers at any base without a pole (Proofs/C04RZ.v).  `Rops_z` is Coq's real numbers
+   with the power function zpow: powerRZ x z for an integer exponent z -- x^n for z = n >= 0,
+   1 / x^n for z = -n -- at ANY base (what f64 powf computes for (-2)^3 and (-3)^(-2)), Rpower x y =
+   exp (y ln x) otherwise.  `dom_z` is `dom` except that a power with a record base whose exponent is
+   a plain number (record ^ number) or a constant record (record ^ Record::constant(c)) is also inside
+   the domain when the exponent is an integer z and (z >= 0 or base <> 0) -- `int_exponent`.  zpow
+   extends rpow (same value on natural exponents at any base and on every exponent at a positive
+   base: last conjunct below and zpow_rpow_pos), and the side condition of `dom_i` for record ^
+   number (base > 0 or exponent a natural number) is an instance of `int_exponent` ---- *)
+Theorem C04_zpow_is_the_power_function :
+  (forall x z, zpow x (IZR z) = powerRZ x z)%R /\
+  (forall x n, zpow x (INR n) = x ^ n)%R /\
+  (forall x n, zpow x (- INR n) = / x ^ n)%R /\
+  (forall x y, 0 < x -> zpow x y = Rpower x y)%R /\
+  (forall x n, zpow x (INR n) = rpow x (INR n))%R.
+Proof.
+  split; [exact zpow_int|]. split; [exact zpow_nat|]. split; [exact zpow_neg|].
+  split; [exact zpow_pos|exact zpow_rpow_nat].
+Qed.
+
+(* the session-3 domain is a special case: inside dom_i the program is inside dom_z and both power
+   functions compute the same values, so the `_zpow` theorems cover every point the `_ipow` ones cover *)
+Theorem C04_dom_i_inside_dom_z : forall prog,
+  dom_i prog -> dom_z prog /\ value Rops_i prog = value Rops_z prog.
+Proof. exact dom_i_inside_dom_z. Qed.
+
+Theorem C04_formal_is_true_derivative_zpow : forall prog i x0 out,
+  nth_error prog i = Some (IVar x0) -> dom_z prog ->
+  derivable_pt_lim (fun t => nth out (value Rops_z (set_var prog i t)) 0%R) x0 (grad Rops_z prog out i).
+Proof. exact formal_is_true_derivative_z. Qed.
+
+Theorem C04_reverse_mode_is_true_derivative_zpow : forall prog i x0 out d,
+  nth_error prog i = Some (IVar x0) -> dom_z prog ->
+  try_derivatives Rops_z (run_prog Rops_z prog) out = Some d ->
+  derivable_pt_lim (fun t => number (getr Rops_z (fst (run_prog Rops_z (set_var prog i t))) out)) x0
+                   (at_ Rops_z d (getr Rops_z (fst (run_prog Rops_z prog)) i)).
+Proof. exact reverse_mode_is_true_derivative_z. Qed.
+
 (* non-vacuity, ring level: the integers are an instance; for x = 3, y = 5 the program
    u = x*y; w = u + x; c = 7; z = c*w (constant record on the left, reuse of x) reports
    dz/dx = 7*(y+1) = 42, dz/dy = 7*x = 21, and the constant c has no derivatives *)
@@ -237,6 +306,33 @@ Proof.
   split; [apply (user2_table_derivative 0%Z _ _ _ (or_introl eq_refl) eq_refl)|exact I].
 Qed.
 
+(* non-vacuity of the all-integer-power statements: at x = -3 (a NEGATIVE base), x ^ Record::constant(-2)
+   (record ^ constant record) and x ^ (-1) (record ^ number) are inside dom_z; values 1/9 and -1/3,
+   formal derivatives -2 x^(-3) = 2/27 and -x^(-2) = -1/9 *)
+Example C04_nonvacuous_zpow :
+  let prog := [IVar (-3)%R; IConst (IZR (-2)); IBin BPow 0 1; IBinC BPow 0 (IZR (-1))] in
+  dom_z prog /\ nth_error prog 0 = Some (IVar (-3)%R) /\
+  nth 2 (value Rops_z prog) 0%R = (1 / 9)%R /\ grad Rops_z prog 2 0 = (2 / 27)%R /\
+  nth 3 (value Rops_z prog) 0%R = (- 1 / 3)%R /\ grad Rops_z prog 3 0 = (- 1 / 9)%R.
+Proof.
+  cbv zeta. split; [|split; [reflexivity|]].
+  - unfold dom_z. cbn [dom_from_z dom_instr_z dom_instr app nth value_instr].
+    assert (Hne : (-3 <> 0)%R) by (apply Rlt_not_eq; apply Ropp_lt_gt_0_contravar; apply Rlt_gt; prove_sup0).
+    repeat split.
+    + right. exists (IZR (-2)). split; [reflexivity|]. exists (-2)%Z. split; [reflexivity|right; exact Hne].
+    + right. exists (-1)%Z. split; [reflexivity|right; exact Hne].
+  - unfold grad, tangent, value, drun.
+    cbn [fold_left dstep fst snd app nth length value_instr tangent_instr bop_f bop_dx bop_dy Nat.eqb
+         npow nmul nsub nadd nln none_ nzero Rops_z].
+    replace (IZR (-2) - 1)%R with (IZR (-3)) by (rewrite <- minus_IZR; reflexivity).
+    replace (IZR (-1) - 1)%R with (IZR (-2)) by (rewrite <- minus_IZR; reflexivity).
+    rewrite !zpow_int. cbn [powerRZ].
+    change (Pos.to_nat 1) with 1%nat. change (Pos.to_nat 2) with 2%nat. change (Pos.to_nat 3) with 3%nat.
+    cbn [pow].
+    assert (Hne : (-3 <> 0)%R) by (apply Rlt_not_eq; apply Ropp_lt_gt_0_contravar; apply Rlt_gt; prove_sup0).
+    repeat split; field; exact Hne.
+Qed.
+
 Print Assumptions C04_value.
 Print Assumptions C04_sweep_is_gradient.
 Print Assumptions C04_constants_inert.
@@ -254,3 +350,9 @@ Print Assumptions C04_adjoint_of_variable_is_gradient.
 Print Assumptions C04_rpow_is_the_power_function.
 Print Assumptions C04_formal_is_true_derivative_ipow.
 Print Assumptions C04_reverse_mode_is_true_derivative_ipow.
+Print Assumptions C04_zpow_is_the_power_function.
+Print Assumptions C04_formal_is_true_derivative_zpow.
+Print Assumptions C04_reverse_mode_is_true_derivative_zpow.
+Print Assumptions C04_sum_is_the_container_fold.
+Print Assumptions C04_sum_appends.
+Print Assumptions C04_dom_i_inside_dom_z.
